@@ -31,6 +31,10 @@ from lattice import Dim, base_opts, build_args, deviations
 PROP = "C08"
 LINE_CONTENTS = ["a", "b c", "b  c ", "\tx", "", "y" * 31 + "漢 ", "d\r", "e\r\r"]   # the last two: a CRLF line, a CR CR LF line
 
+# content that ends in the beginning of an escape sequence (a literal ESC in a shell script or a vimrc): in the
+# coloured diff git's own ESC[m follows it directly (indices 100.. in file tuples)
+ESC_CONTENTS = ["s=\x1b", "S=\x1b", "t=\x1b[1;", "u=\x1b]0;title"]
+
 DIMS = [
     Dim("view", [("unified", {}), ("sbs", {"side-by-side": True})]),
     Dim("line-numbers", [("off", {}), ("on", {"line-numbers": True})]),
@@ -69,7 +73,7 @@ def files(n):
 
 def file_text(t):
     nonl = bool(t) and t[-1] == -1
-    lines = [LINE_CONTENTS[i] for i in t if i >= 0]
+    lines = [ESC_CONTENTS[i - 100] if i >= 100 else LINE_CONTENTS[i] for i in t if i >= 0]
     s = "".join(l + "\n" for l in lines)
     return s[:-1] if nonl else s
 
@@ -179,6 +183,8 @@ def run_equal(task):
                     bad = "output differs between the plain and the coloured (variant %d) input" % vi
                 if bad:
                     klass = "colour-not-ignored:v%d" % vi if "differs" in bad else "crash"
+                    if b"\x1b" in plain and klass != "crash":
+                        klass = "escape-in-content:" + klass     # (a class of its own: see known_findings.json)
                     if klass not in viols or len(v) < len(b"\n".join(viols[klass].history)):
                         j = 0
                         a, b = rp.out, rv.out
@@ -401,6 +407,9 @@ def main(tier):
     nlines = 2 if tier == "quick" else 3
     F = files(nlines)
     pairs = [(o, n) for o in F for n in F if o != n]
+    FE = [()] + [(i,) for i in range(100, 100 + len(ESC_CONTENTS))] + \
+        [(i, j) for i in (0, 100, 101, 102, 103) for j in (0, 100, 101, 102, 103) if i + j >= 100]
+    pairs += [(o, n) for o in FE for n in FE if o != n]
     cap = 50 if tier == "quick" else 900
     deadline = t0 + cap
     step = max(1, len(pairs) // 64)
